@@ -281,6 +281,7 @@ func (w *World) AbsState(p *Party) M {
 	st["rstep"] = s.AKE.RecentStep
 	st["renc"] = s.RecentEnc
 	st["inj"] = s.Injections
+	st["nctr"], st["nmac"], st["npend"], st["nrsq"] = len(s.Counters), len(s.MACHistory), len(s.OldMACKeys), len(s.ResendQueue)
 	return st
 }
 
@@ -407,7 +408,7 @@ func errClass(err error) string {
 func (w *World) record(ev M, p *Party, cr callResult, out []M, err error) M {
 	ev["p"] = p.Name
 	ev["i"] = w.N + 1
-	for k, v := range map[string]interface{}{"plain": 0, "hi": false, "np": 0, "text": 0} {
+	for k, v := range map[string]interface{}{"plain": 0, "hi": false, "np": 0, "text": 0, "prs": false} {
 		if _, ok := ev[k]; !ok {
 			ev[k] = v
 		}
@@ -457,12 +458,28 @@ func (w *World) record(ev M, p *Party, cr callResult, out []M, err error) M {
 // Init writes the trace event that describes the parties of a run; it must be
 // the first event of every run.
 func (w *World) Init() {
+	w.InitFam("none")
+}
+
+// Done writes the end-of-run event (queue lengths) used by end-of-run properties.
+func (w *World) Done() {
+	ev := M{"ev": "Done", "p": "A", "i": w.N + 1, "qa": len(w.P["A"].Queue), "qb": len(w.P["B"].Queue)}
+	w.N++
+	if w.Trace != nil {
+		b, _ := json.Marshal(ev)
+		w.Trace.Write(b)
+		w.Trace.WriteByte('\n')
+	}
+}
+
+// InitFam is Init with a scenario family name (selects which properties apply).
+func (w *World) InitFam(fam string) {
 	pol, ver := M{}, M{}
 	for n, p := range w.P {
 		pol[n] = p.Pol.M()
 		ver[n] = otr3.VerifProject(p.Conv).Version
 	}
-	ev := M{"ev": "Init", "pol": pol, "ver": ver, "seed": int(w.Seed % 1000000007)}
+	ev := M{"ev": "Init", "fam": fam, "pol": pol, "ver": ver, "seed": int(w.Seed % 1000000007)}
 	w.N++
 	if w.Trace != nil {
 		b, _ := json.Marshal(ev)
@@ -522,13 +539,14 @@ func (w *World) Receive(p *Party, wm *WireMsg) M {
 		}
 	})
 	pid := 0
+	prs := false
 	if plain != nil {
-		pid, _ = w.Reg.TextID(plain)
+		pid, prs = w.Reg.TextID(plain)
 		if len(plain) == 0 {
 			pid = -4 // non-nil but empty
 		}
 	}
-	ev := M{"ev": "Recv", "m": wm.Abs, "plain": pid, "np": len(plains), "hi": hi}
+	ev := M{"ev": "Recv", "m": wm.Abs, "plain": pid, "prs": prs, "np": len(plains), "hi": hi}
 	if w.KeepRaw {
 		ev["plainraw"] = hex.EncodeToString(plain)
 	}
